@@ -28,6 +28,8 @@ type Gate struct {
 	site    string
 	nth     int
 	conn    int // 0 = any
+	connNth int // with conn != 0: the nth call of site on that connection after the gate was set
+	connCnt int
 	reached chan struct{}
 	release chan struct{}
 	once    sync.Once
@@ -176,8 +178,18 @@ func (r *Runtime) hook(site string, conn interface{}, kv ...interface{}) {
 		r.counts[site]++
 		n = r.counts[site]
 		for _, g := range r.gates {
-			if g.site == site && g.nth == n && (g.conn == 0 || g.conn == cid) {
-				gate = g
+			if g.site != site {
+				continue
+			}
+			if g.conn == 0 {
+				if g.nth == n {
+					gate = g
+				}
+			} else if g.conn == cid {
+				g.connCnt++
+				if g.connCnt == g.connNth {
+					gate = g
+				}
 			}
 		}
 		r.mu.Unlock()
@@ -230,6 +242,18 @@ func (r *Runtime) Gate(site string, nth int) *Gate {
 	r.gateSites.Store(site, true)
 	r.mu.Lock()
 	g.nth = r.counts[site] + nth // relative to now
+	r.gates = append(r.gates, g)
+	r.mu.Unlock()
+	return g
+}
+
+// GateConn is Gate restricted to one connection, chosen from the trace so far when the gate is set.
+func (r *Runtime) GateConn(site string, nth int, pick func([]Event) int) *Gate {
+	conn := pick(r.Events())
+	g := &Gate{site: site, nth: nth, conn: conn, reached: make(chan struct{}), release: make(chan struct{})}
+	r.gateSites.Store(site, true)
+	r.mu.Lock()
+	g.connNth = nth
 	r.gates = append(r.gates, g)
 	r.mu.Unlock()
 	return g
